@@ -226,7 +226,11 @@ ODD = ["z_", "_y", "k_1", "copy_x", "t0", "Time", "self_", "a_b"]
 RARE = ["copy_", "a__b", "t", "values_"]
 INNER = ["b", "c_", "_d", "v", "copy"]
 INST = ["a", "x_", "g", "comp"]
-LITS = ["1", "2", "3", "4", "5", "0.5", "0.25", "1.5", "2.0", "1e-1", "10"]
+LITS = ["1", "2", "3", "4", "5", "0.5", "0.25", "1.5", "2.0", "1e-1", "10", "0.1", "100.0", "9.81"]
+# the whole float range, incl. literals whose Python repr is in exponent notation (exponents ending in 0 too)
+WIDE = ["1e-10", "1e-20", "3e-10", "1.5e-07", "1e-05", "2.5e+30", "1e16", "1e20", "1e+16", "123456789.0",
+        "1234.5", "2500.0", "6.02e23", "1e-30", "7e10", "0.001", "1000000"]
+SIDE = ["0", "0.0", "0", "0.0", "3", "1", "2.0", "1e-10", "0.5", "1e20"]   # literals used as a whole side
 
 
 def mo(e):
@@ -257,11 +261,13 @@ def nops(e):
     return 1 + sum(nops(c) for c in e[2:] if isinstance(c, tuple))
 
 
-def rleaf(rng, env):
+def rleaf(rng, env, tame=False):
     x = rng.random()
     if x < 0.6:
         return ("v", rng.choice(env["names"]))
     if x < 0.85:
+        if not tame and rng.random() < 0.3:
+            return ("n", rng.choice(WIDE))
         return ("n", rng.choice(LITS))
     if x < 0.93 or not env["states"]:
         return ("t",)
@@ -270,12 +276,12 @@ def rleaf(rng, env):
 
 def rexpr(rng, depth, env, tame=False):
     if depth <= 0 or rng.random() < 0.18:
-        return rleaf(rng, env)
+        return rleaf(rng, env, tame)
     x = rng.random()
     if x < 0.68:
-        o = rng.choice(["+", "-", "*"] if tame else BIN)
+        o = rng.choice(["+", "-", "*"] if tame is True else BIN)
         if o == "^":
-            base = rexpr(rng, depth - 1, env)
+            base = rexpr(rng, depth - 1, env, tame="base")   # no huge/tiny literals under a power
             if rng.random() < 0.6:
                 ex = ("n", rng.choice(["2", "3"]))
             else:
@@ -348,7 +354,13 @@ def gen_random(rng, depth):
         lhs = ("d", n) if n in states else ("v", n)
         if rng.random() < 0.15:
             lhs = rexpr(rng, 2, env)                   # a general expression on the left
-        eqs.append((lhs, rexpr(rng, depth, env)))
+        rhs = rexpr(rng, depth, env)
+        x = rng.random()
+        if x < 0.10:
+            lhs = ("n", rng.choice(SIDE))              # implicit form  0 = f,  3 = x
+        elif x < 0.18:
+            rhs = ("n", rng.choice(SIDE))              # f = 0
+        eqs.append((lhs, rhs))
     return make_case(rng, decls, comp, insts, eqs, states, "random")
 
 
@@ -376,6 +388,19 @@ def gen_systematic(rng):
               ("b", "/", A, ("b", "/", Bv, ("b", "*", K, ("t",)))),
               ("b", "*", ("d", "x"), ("b", "+", ("d", "x"), ("t",)))]
     cases = []
+    Y, X = ("v", "y"), ("v", "x")
+    n = lambda t: ("n", t)
+    lit_eqs = [(n("0"), ("b", "+", A, ("b", "*", Y, K))), (n("0.0"), ("b", "-", Y, X)),
+               (("b", "*", A, Y), n("0")), (("b", "-", Y, ("c", "sin", X)), n("0.0")), (n("3"), X),
+               (n("1e-10"), ("b", "-", ("v", "e6"), Y)), (n("0"), ("u", "-", ("v", "e7"))),
+               (("v", "e0"), ("b", "+", ("b", "*", n("1e-10"), Y), n("1e-20"))),
+               (("v", "e1"), ("b", "*", n("2.5e+30"), Y)), (("v", "e2"), ("b", "+", Y, n("1e16"))),
+               (("v", "e3"), ("b", "-", n("123456789.0"), ("b", "*", Y, n("0.1")))),
+               (("v", "e4"), ("b", "+", n("3e-10"), Y)), (("v", "e5"), ("b", "/", n("1e20"), Y)),
+               (("v", "e8"), ("b", "+", ("b", "*", n("100.0"), Y), n("2.0"))),
+               (("v", "e9"), ("b", "*", ("b", "-", Y, n("2500.0")), n("1.5e-07")))]
+    decls = [("", "y", None), ("parameter", "copy", "2"), ("", "x", None)] + [("", "e%d" % j, None) for j in range(10)]
+    cases.append(make_case(rng, decls, ["b"], ["a"], lit_eqs, [], "systematic"))
     per = 8
     for i in range(0, len(exprs), per):
         chunk = exprs[i:i + per]
